@@ -20,7 +20,7 @@ logging.getLogger('Inference').setLevel(logging.ERROR)
 REG = Registry(
     'C16',
     rule=('a case is a random neutral "program" over 1-5 populations (harness/programs.py): 1-5 steps, each = at most one event '
-          '(branch, true split, admixture into a new population with or without merging the parents, pulse, removal, ancient-sample '
+          '(branch, true split, admixture into a new population with or without merging the parents, pulse or a back-to-back sequence of up to three pulses, removal, ancient-sample '
           'branch) followed by an integration with constant / exponential / linear sizes and a random sparse asymmetric migration '
           'matrix. The program is executed natively with PhiManip/Integration and, independently, translated to a demes graph with '
           'demes.Builder. Non-trivial = at least 2 populations and at least one of migration, size change, pulse, admixture, true '
@@ -40,7 +40,7 @@ TOL = 1e-9
 def feats(prog):
     f = P.features(prog)
     lab = ['pops=%d' % f['max_pops']]
-    for k in ('true_split', 'mig', 'symmig', 'long_epoch', 'pulse', 'growth', 'admix', 'merge', 'remove'):
+    for k in ('true_split', 'mig', 'symmig', 'long_epoch', 'pulse', 'pulse_seq', 'growth', 'admix', 'merge', 'remove'):
         if f[k]:
             lab.append(k)
     if f['ancient']:
